@@ -326,6 +326,7 @@ type directScript struct {
 		MaxMs     float64 `json:"max_ms"`
 	} `json:"retry"`
 	Errors []string `json:"errors"` // error text per attempt; "" = success
+	OpMs   float64  `json:"op_ms"`  // every attempt takes that long before it fails or succeeds
 	Cancel struct {
 		At string `json:"at"` // "", "before", "attempt", "wait"
 		K  int    `json:"k"`  // 1-based attempt / wait index
@@ -368,6 +369,9 @@ func runDirect(s directScript) (res directResult) {
 		if s.Cancel.At == "attempt" && s.Cancel.K == n {
 			cancelAt = time.Now()
 			cancel()
+		}
+		if s.OpMs > 0 {
+			time.Sleep(time.Duration(s.OpMs * float64(time.Millisecond)))
 		}
 		ends = append(ends, time.Now())
 		if s.Cancel.At == "wait" && s.Cancel.K == n {
